@@ -327,7 +327,7 @@ CHECKS = {
         fuzz=[('FuzzSFO', 90), ('FuzzImage', 90), ('FuzzStream', 90), ('FuzzINI', 30)],
         level="exploration",
         technique="structure-aware fuzzing (rapid) of hostile sessions against a worker process hosting the real binary under an address-space limit, hostile on-disk content through the library constructors and the CLI; native go fuzz targets in the thorough tier",
-        rule="unit sessions: a worker = the real server binary under 'ulimit -v 8000000' over a static hostile fixture (36 malformed PARAM.SFO variants incl. TITLE_IDs with fewer characters than bytes, encrypted images with region counts 0/1/256/2^31/"
+        rule="unit sessions: a worker = the real server binary under 'ulimit -v 8000000' over a static hostile fixture (about 60 malformed PARAM.SFO variants incl. TITLE_IDs with fewer characters than bytes and values shorter than their zero-padded slot, encrypted images with region counts 0/1/256/2^31/"
              "2^32-1, non-monotonic and beyond-EOF tables, truncated images, short/non-hex/huge/empty key files, 3k3y images at lengths 0x106F/0x1070 and with broken tables, PSX images, a 16 MiB sparse "
              "file, 40 levels of nesting, 600 entries in one directory, 255-byte, non-UTF-8, newline and prefix-looking names, symlink loops). each case = 1..3 concurrent sessions of 1..25 hostile "
              "requests: opens of every fixture object plain and through ***DVD***/***PS3***, reads with limits/offsets from {0,1,2047..2049,0xF6F,0xF70,0x1070,6143,6144,2^31,2^32,2^63-1,2^63,2^64-1}, "
